@@ -73,6 +73,7 @@ func runC17(c *Ctx) {
 	c.rule("R-SWAP-ONLY", 2, "every element store into Partition's input is half of an exchange of two elements loaded before either store")
 	ruleAllocBounded(c, "slice", true)
 	ruleSizeGuard(c, "slice")
+	ruleConstIndex(c, "slice")
 	// a count or index is never bounded by the CAPACITY of an input: what lies between len and cap is not part of it
 	c.rule("R-NO-CAP-BOUND", 0, "no comparison in package slice bounds a count or index by cap(input) (floor 0: the unchanged tree has none)")
 	for _, fn := range P.PkgFuncs("slice") {
